@@ -1,7 +1,6 @@
 PROP = dict(
-    unclaimed=True,
     module="M3d.Props.C07",
-    corr=dict(quick=120, thorough=1200),
+    corr=dict(quick=400, thorough=3000),
     gen=[],
     corr_theorems=(
         "obs2/obs3 lines print the verdict of M3d.Col.obsVerdict (the Boolean obsOk; M3d.C07.contract_obs: it is implied by "
@@ -11,7 +10,7 @@ PROP = dict(
         "(plane_circle_hit), cylb = cylCollider (plane_circle_hit + first_is_min), capb = capsuleCollider "
         "(capsule_phantom_contract), joinx = joined with an always-admitting prefilter, i.e. brute force (joined_contract), "
         "profx = profileCollider over joined 2-D segments (profile_contract, profile_faces_and_sides), ballx/circx = the "
-        "sqrt-free closest-point specification triBallSpec/seg2BallSpec (ball_touches_iff_segment2d; refused with "
+        "sqrt-free closest-point specification triBallSpec/seg2BallSpec (ball_touches_iff_triangle, ball_touches_iff_segment2d; refused with "
         "MODEL-NE-SPEC if the faithful model triSphere/seg2Circle disagrees), segx = triSegment"
     ),
     rule=(
@@ -32,7 +31,7 @@ PROP = dict(
         "Cone side and Torus intersections go through numerical.Polynomial.IterRealRoots: not modelled; only the contract (obs) and tolerance residuals labelled validation: are checked for the hit parameters (the cone normal formula itself is proved perpendicular: cone_normal_perpendicular)",
         "SolidCollider is approximate by documentation: contract only",
         "parity: proved for the convex cells Rect and Sphere only (parity_inside_box_partial, parity_inside_sphere_partial); for meshes, tori, cones, capsules, cylinders, profiles and transformed shapes it is checked on the real code against winding numbers / analytic containment (PropFail c07:parity-vs-contains)",
-        "ball queries: theorem for 2-D Segment.CircleCollision and for |SDF|<=r on Sphere/Circle; Triangle.SphereCollision is tied to the exact closest-point specification by exact-mode correspondence (ballx) but the equivalence spec <=> 'some point of the triangle is within r' is not proved (needs the 2-D closest-point lemma); other primitives' |SDF|<=r rely on C06",
+        "ball queries: theorems for 2-D Segment.CircleCollision (the Go method itself), for |SDF|<=r on Sphere/Circle, and for the sqrt-free vertex/edge/face specification triBallSpec of Triangle.SphereCollision (= some point of the triangle within r, closest-point lemma proved); the Go method Triangle.SphereCollision (square roots, rayCollision along the normal) is tied to triBallSpec by exact-mode correspondence (ballx refuses MODEL-NE-SPEC), not by theorem; other primitives' |SDF|<=r rely on C06",
         "bounding-box prefilters of JoinedCollider are sound by C08; joined_contract holds whatever the prefilter answers",
         "sort.Slice in Capsule.RayCollisions is modelled as an insertion sort; only the first and last element are used (cases with tied parameters are skipped in capb)",
         "residual / outward-normal / parity checks compare floats with a tolerance (1e-7 relative; 1e-5 for root-finder shapes): they are PropFail predicates on the implementation, not what the theorems rest on",
@@ -52,7 +51,8 @@ PROP = dict(
         "(the reported parameters are entry/exit of the exact parameter interval of the box), Triangle Moller-Trumbore "
         "(hit iff unique barycentric solution in range with t >= 0, non-unit directions, exactly-parallel rays report "
         "nothing), 2-D Segment, castPlane/castCircle, the repaired Cone normal is perpendicular to the cone; parity for "
-        "the convex cells Rect and Sphere; ball queries for 2-D segments and for |SDF| <= r on spheres. The generic models "
+        "the convex cells Rect and Sphere; ball queries: 2-D segments, |SDF| <= r on spheres, and the vertex/edge/face analysis of "
+        "Triangle.SphereCollision = squared distance to the triangle < r^2 (closest-point lemma proved). The generic models "
         "are tied to /repo on every run: bit-for-bit at Float on arbitrary doubles (Sphere, Circle, Rect, Triangle, "
         "Segment, castPlane, castCircle, Cylinder, Capsule) and exactly at Rat on dyadic data (Rect, Triangle, Segment, "
         "triangle soups through the real mesh colliders, ProfileCollider, ball/segment queries); the contract predicate "
@@ -60,7 +60,7 @@ PROP = dict(
     ),
     level_note=(
         "Proved about lean/M3d/Model/Collide.lean over ordered fields, not floats. Cone/Torus root finding and SolidCollider "
-        "are only covered by the contract and tolerance residuals; parity beyond convex cells and the triangle ball query "
-        "are tied by exact/independent computation in the harness, not by theorem."
+        "are only covered by the contract and tolerance residuals; parity beyond convex cells is tied by independent "
+        "winding-number / analytic containment computation in the harness, not by theorem."
     ),
 )
